@@ -117,7 +117,13 @@ func splitComma(s string) []string {
 func genC19(h *H) {
 	bs := h.boundaryInts()
 	block := func() []byte {
-		switch h.rng.Intn(4) {
+		switch h.rng.Intn(5) {
+		case 4: // a single non-zero 32-bit word (valid key that a word-skipping zero test would discard)
+			b := make([]byte, 32)
+			j := h.rng.Intn(8)
+			w := []uint32{1, 0x80000000, 0xffffffff, h.rng.Uint32() | 1}[h.rng.Intn(4)]
+			b[4*j], b[4*j+1], b[4*j+2], b[4*j+3] = byte(w>>24), byte(w>>16), byte(w>>8), byte(w)
+			return b
 		case 0:
 			v := bs[h.rng.Intn(len(bs))]
 			if v.BitLen() > 256 {
